@@ -20,6 +20,7 @@ class Rig:
         self.deliveries = []
         self.pending_discover = None       # (future, locator)
         self.pending_connect = None        # (future, spa)
+        self.nf_sleeping = False           # the pump is asleep in its not-found retry clause
         self.patches = []
 
         class Man(M.GeckoAsyncSpaMan):
@@ -95,6 +96,20 @@ class Rig:
 
     async def settle(self):
         await asyncio.sleep(0.35)
+        # the pump polls every 0.1 s: if the state is ERROR_SPA_NOT_FOUND and it is between phases it has entered the
+        # not-found clause (when the code has one: recognised by the state still being there after the discovery timeout)
+        if (self.man.spa_state.name == "ERROR_SPA_NOT_FOUND" and self.pending_discover is None and self.pending_connect is None
+                and self.pump_alive() and self.has_nf_clause):
+            self.nf_sleeping = True
+
+    def pump_alive(self):
+        pump = [t for t in self.man._tasks if t.get_name() == "SPAMAN:Sequence Pump"]
+        return bool(pump) and not pump[0].done()
+
+    @property
+    def has_nf_clause(self):
+        import inspect
+        return "ERROR_SPA_NOT_FOUND" in inspect.getsource(self.M.GeckoAsyncSpaMan._sequence_pump)
 
     async def enter(self):
         await self.man.__aenter__()
@@ -109,7 +124,7 @@ class Rig:
         applicable = True
         if kind == "Pump":
             pump = [t for t in self.man._tasks if t.get_name() == "SPAMAN:Sequence Pump"]
-            applicable = bool(pump) and not pump[0].done() and self.pending_discover is None and self.pending_connect is None
+            applicable = bool(pump) and not pump[0].done() and self.pending_discover is None and self.pending_connect is None and not self.nf_sleeping
             await self.settle()
         elif kind == "LocOutcome":
             if self.pending_discover is None:
@@ -146,6 +161,14 @@ class Rig:
                     await self.settle()
                     if t.done() and t.exception() is not None:
                         self.deliveries.append(("EXCEPTION", repr(t.exception())[:60], False, ""))
+        elif kind == "NotFoundWake":
+            if not self.nf_sleeping:
+                applicable = False
+            else:
+                import geckolib.config as C
+                await asyncio.sleep(C.GeckoConfig.DISCOVERY_TIMEOUT_IN_SECONDS + 0.05)
+                self.nf_sleeping = False
+                await self.settle()
         elif kind == "UserReset":
             await self.man.async_reset()
             await self.settle()
